@@ -485,8 +485,13 @@ class TruncateMixin(MinimalHandler):
         which should honor the .truncate_verify_reject policy.
         """
         assert cls.truncate_size is not None, "truncate_size must be set by subclass"
-        if cls.truncate_error and len(secret) > cls.truncate_size:
-            raise exc.PasswordTruncateError(cls)
+        if cls.truncate_error:
+            if isinstance(secret, str):
+                # NOTE: truncate_size is a number of *bytes*; text is hashed as utf-8
+                #       (hashers using another encoding must pass in the encoded secret).
+                secret = secret.encode("utf-8")
+            if len(secret) > cls.truncate_size:
+                raise exc.PasswordTruncateError(cls)
 
 
 class GenericHandler(MinimalHandler):
